@@ -9,9 +9,12 @@ LEVEL = 'other'
 EXPLANATION = ('Proved: Context.get_cell / set_cell (a reference text is produced only for a registered uid; registration adds '
                'exactly one entry and keeps the others, K1), the reference text self._cell_preprocessor(\'...\') has a single '
                'producer in the whole translator (K3), the in-progress marker is added before the descent and tested before it '
-               '(K3 shape on CellTranslator._set_cell_to_context). Faithfulness (entry-point vs whole-file values) and cycle '
+               '(K3 shape on CellTranslator._set_cell_to_context); CellTranslator._set_cell_to_context over an abstract formula translator '
+               '(K1): after translating a cell its uid is a key of the translation map, earlier entries are never removed or '
+               'changed (also on exceptional exits), a constant is emitted as repr(value) / EmptyCell(), the marker set is '
+               'restored. Faithfulness (entry-point vs whole-file values) and cycle '
                'rejection over all graph shapes are decided by the bounded differential monitor, so the level is other.')
-K1 = ['Context.get_cell', 'Context.set_cell']
+K1 = ['Context.get_cell', 'Context.set_cell', 'CellTranslator._set_cell_to_context']
 
 
 def _single_producer(res):
